@@ -9,6 +9,8 @@ package manager
 // decides when each parked job is delivered.
 
 import (
+	"syscall"
+	"strconv"
 	"bytes"
 	"context"
 	"fmt"
@@ -467,6 +469,47 @@ func (e *veEngine) close() {
 		veCurrent = nil
 	}
 	veCurrentMu.Unlock()
+	veReapConverters(e.dirs.converter)
+}
+
+// veReapConverters ends the converter processes of a closed manager. Manager.Close only closes the cache
+// files: the processes stay alive (or, once they exit, stay zombies because the goroutine that would wait
+// for them sleeps on a channel nobody closes any more), which adds up to thousands of processes in a
+// long campaign. Only children of this process whose executable lies in the given converter directory are touched.
+func veReapConverters(convDir string) {
+	self := os.Getpid()
+	tasks, _ := os.ReadDir(fmt.Sprintf("/proc/%d/task", self))
+	seen := map[int]bool{}
+	for _, tk := range tasks {
+		b, err := os.ReadFile(fmt.Sprintf("/proc/%d/task/%s/children", self, tk.Name()))
+		if err != nil {
+			continue
+		}
+		for _, f := range strings.Fields(string(b)) {
+			pid, err := strconv.Atoi(f)
+			if err != nil || seen[pid] {
+				continue
+			}
+			seen[pid] = true
+			exe, err := os.Readlink(fmt.Sprintf("/proc/%d/exe", pid))
+			if err != nil {
+				// a zombie has no exe link any more: identify it by its name and its parent
+				st, _ := os.ReadFile(fmt.Sprintf("/proc/%d/stat", pid))
+				i, j := bytes.IndexByte(st, '('), bytes.LastIndexByte(st, ')')
+				if i < 0 || j < i || j+2 >= len(st) || st[j+2] != 'Z' {
+					continue
+				}
+				if _, err := os.Stat(filepath.Join(convDir, string(st[i+1:j]))); err != nil {
+					continue
+				}
+			} else if !strings.HasPrefix(exe, strings.TrimSuffix(convDir, "/")+"/") {
+				continue
+			}
+			_ = syscall.Kill(pid, syscall.SIGKILL)
+			var ws syscall.WaitStatus
+			_, _ = syscall.Wait4(pid, &ws, 0, nil)
+		}
+	}
 }
 
 // ---------------------------------------------------------------------------------------------
